@@ -114,6 +114,9 @@ def fromRev : List (Nat × Nat) → List Nat
 /-- `from_int_tuple(int_tuple)` with `int_tuple = (a_1,b_1,…,a_n,b_n)` given as the list of pairs. -/
 def fromIntTuple (t : List (Nat × Nat)) : List Nat := fromRev t.reverse
 
+/-- `rand_SpF2(n)` (`random/_spf2.py:32-58`): `from_int_tuple` of the tuple drawn entry by entry with `rng.randint(0, base-1)` -/
+def randSpF2 (rawTuple : List (Nat × Nat)) : List Nat := fromIntTuple rawTuple
+
 /-- remove columns `0` and `n` of a row (`spf2.py:261`) -/
 def cutRow (n r : Nat) : Nat :=
   ofFn (2 * (n - 1)) fun j => if j < n - 1 then r.testBit (j + 1) else r.testBit (j + 2)
